@@ -14,8 +14,10 @@ def norm_impl(o):
     return o.split(" ")[0]
 
 
-def run_batch(cases, backends="vm,wasm", want_model=True, nshards=None):
-    """cases: list of dict(id, src, sx, inputs, times, scheduler?). Returns dict id -> (vm, wasm, model) raw strings."""
+def run_batch(cases, backends="vm,wasm", want_model=True, nshards=None, timeout=3600):
+    """cases: list of dict(id, src, sx, inputs, times, scheduler?, path?). Returns dict id -> (vm, wasm, model) raw strings.
+    `timeout` (seconds) bounds one harness process: when it expires the first case without an answer is recorded as
+    `timeout …` (a hang) and the rest of the shard goes on in a fresh process."""
     nshards = nshards or min(NCPU, max(1, len(cases) // 20))
     shards = [cases[i::nshards] for i in range(nshards)]
 
@@ -28,18 +30,24 @@ def run_batch(cases, backends="vm,wasm", want_model=True, nshards=None):
             inp = "".join(json.dumps({"id": c["id"], "src": c["src"], "times": c["times"], "inputs": c["inputs"],
                                       "scheduler": c.get("scheduler", False), "backends": backends,
                                       **({"path": c["path"]} if c.get("path") else {})}) + "\n" for c in todo)
-            p = run([os.path.join(BIN, "runprog")], input=inp, timeout=3600)
-            for l in p.stdout.splitlines():
+            try:
+                p = run([os.path.join(BIN, "runprog")], input=inp, timeout=timeout)
+                stdout, died = p.stdout, None
+            except subprocess.TimeoutExpired as e:
+                stdout = e.stdout or ""
+                stdout = stdout.decode("utf-8", "replace") if isinstance(stdout, bytes) else stdout
+                died = "timeout no answer within %ss (the harness process was killed)" % timeout
+            for l in stdout.splitlines():
                 f = l.split("\t")
                 if len(f) >= 3:
                     res[f[0]] = [f[1], f[2], None]
             missing = [c for c in todo if c["id"] not in res]
             if not missing:
                 break
-            # the harness process died (abort / segfault / stack overflow) on the first case without an answer:
+            # the harness process died (abort / segfault / stack overflow) or hung on the first case without an answer:
             # record it and go on with the rest of the shard in a fresh process
             crasher = missing[0]
-            died = "harness-died rc=%s %s" % (p.returncode, p.stderr[-200:].replace("\n", " ").replace("\t", " "))
+            died = died or "harness-died rc=%s %s" % (p.returncode, p.stderr[-200:].replace("\n", " ").replace("\t", " "))
             res[crasher["id"]] = [died, died, None]
             todo = missing[1:]
         if want_model:
